@@ -6,6 +6,15 @@ VERIF = os.path.dirname(HERE)
 sys.path.insert(0, HERE)
 from props import PROPS, ORDER
 
+def engine_path(name):
+    """the source file that defines sim::engine_<name> (several read-side engines share eng_reader.cpp)"""
+    import glob, os
+    here = os.path.dirname(os.path.dirname(os.path.abspath(__file__)))
+    for f in sorted(glob.glob(os.path.join(here, "sim", "eng_*.cpp"))):
+        if ("void sim::engine_%s(" % name) in open(f).read():
+            return "sim/" + os.path.basename(f)
+    return "sim/eng_%s.cpp" % name
+
 NOT_YET = {}   # property -> reason, for properties not (yet) claimed
 try:
     from props import NOT_CLAIMED
@@ -47,7 +56,7 @@ man = dict(
     hooks=dict(guard="CDNS_VERIF", enable="no hook exists: every seam is a link-time definition in the harness executable, a template specialisation the library invites, or the library's own std::istream& parameter; checks compile /repo/src from the working tree without any define",
                baseline_off_cmd="cmake -S /repo -B /repo/_build -G Ninja -DBUILD_TESTS=ON >/dev/null && cmake --build /repo/_build && ctest --test-dir /repo/_build -j8 --timeout 900",
                source_commits=[], add_only=True),
-    engines=[dict(name=n, path="sim/eng_%s.cpp" % n, serves_properties=sorted(p), kind_free_text=ENGINE_TEXT.get(n, "")) for n, p in sorted(engines.items())],
+    engines=[dict(name=n, path=engine_path(n), serves_properties=sorted(p), kind_free_text=ENGINE_TEXT.get(n, "")) for n, p in sorted(engines.items())],
     checks=checks,
     notes="Deterministic simulation with fault injection for CZ-NIC/c-dns; see DESIGN.md. One seed (VERIF_SEED) decides every plan; violations are minimised (ddmin over the plan's ops), gated (same plan twice in-process, fresh-process replay) and written to replays/<id>/.",
     not_applicable=[dict(property_id=p, reason=r) for p, r in sorted(NOT_YET.items())])
